@@ -300,6 +300,35 @@ def direct_use(ctx, rng):
                               {"type": t, "endian": endian, "data": data.hex(), "error": lib.exc_sig(e)})
 
 
+def enum_counts(ctx):
+    """An array type made through the API with an enum / flag member (or a constant of an anonymous enum) as its count
+    has that many entries, for every element type, and reads and dumps like the one made with the plain integer."""
+    text = "enum { N = 2 };\nenum E : uint16 { A = 1, B = 2 };\nflag F : uint8 { X = 2 };\nstruct S { uint8 a; uint16 b; };"
+    for endian in "<>":
+        cs = lib.load(text, endian)
+        data = bytes(range(1, 40))
+        for tname in ("uint8", "int16", "uint32", "uint24", "int128", "float", "char", "wchar", "uleb128", "E", "S"):
+            t = getattr(cs, tname)
+            ref = t[2]
+            for label, count in (("anonymous-enum-constant", cs.N), ("enum-member", cs.E.B), ("flag-member", cs.F.X)):
+                ctx.evaluation(("enum-count", endian, tname, label))
+                ctx.cell("array-count-is-an-enum-member")
+                try:
+                    at = t[count]
+                    got = (at.num_entries, at.size, lib.stable_repr(at(data)), at.dumps(at(data)), lib.stable_repr(at.__default__()))
+                    want = (2, ref.size, lib.stable_repr(ref(data)), ref.dumps(ref(data)), lib.stable_repr(ref.__default__()))
+                except Exception as e:  # noqa: BLE001
+                    ctx.violation("enum-count", f"array-with-enum-member-count-raises:{type(e).__name__}",
+                                  {"type": tname, "count": label, "endian": endian, "error": lib.exc_sig(e), "workload": "enum-counts"})
+                    continue
+                if got != want:
+                    ctx.violation("enum-count", "array-with-enum-member-count-differs-from-integer-count",
+                                  {"type": tname, "count": label, "endian": endian, "got": repr(got), "want": repr(want),
+                                   "workload": "enum-counts"})
+                else:
+                    ctx.event("enum_counts_checked")
+
+
 def shadowing(ctx):
     """x[expr]: identifiers resolve in the fields parsed before the array first, then in the constants."""
     for compiled in (True, False):
@@ -360,6 +389,7 @@ def run(ctx):
         direct_use(ctx, ctx.rng("direct"))
         shadowing(ctx)
         folded_length_source(ctx)
+        enum_counts(ctx)
     # the element kind x length form matrix, every cell on every run
     cells = []
     tmp = gen.Gen(ctx.rng("kinds"))
